@@ -294,6 +294,13 @@ Theorem C19_parallel_moves_count : forall (T : Type) (eqb : T -> T -> bool),
 Proof. exact parallel_moves_len. Qed.
 Print Assumptions C19_parallel_moves_count.
 
+(* ... and in-degree <= 1 cannot be dropped: a chain of d diamonds (two sources for one target) makes the first
+   root's spanning tree unfold the DAG - 1020 pseudo-instructions for 32 edges and 24 keys, 16380 for 48 / 36.
+   This is why the parallel-move clause of the round-1 [cost_model] (every move table) is too strong. *)
+Example C19_parallel_moves_indeg1_needed :
+  diamonds_count 8 = Some (1020, 32, 24) /\ diamonds_count 12 = Some (16380, 48, 36).
+Proof. split; vm_compute; reflexivity. Qed.
+
 (* x86-64: K = 40 + 13 * FIELDS_PER_BLOCK (= 79 with 3 fields per block) *)
 Theorem C19_x86_cost_model : cost_model_wf x86_backend x86_K.
 Proof. apply x86_cost_model_wf. intros c. vm_compute. discriminate. Qed.
